@@ -195,6 +195,7 @@ func (b *baseOracle) Stats() CaseStats                    { return b.st }
 // ---- engine ---------------------------------------------------------------
 
 type Engine struct {
+	firstCfg *router.RealmConfig // the object the first realm was configured with
 	// wsSer: one serializer instance per websocket subprotocol, shared by every
 	// websocket session of the router - as router.WebsocketServer does
 	wsSer   map[string]serialize.Serializer
@@ -278,6 +279,9 @@ func (e *Engine) Start() error {
 	rcfg := &router.Config{}
 	for i := range e.C.Realms {
 		rcfg.RealmConfigs = append(rcfg.RealmConfigs, e.buildRealm(&e.C.Realms[i]))
+	}
+	if len(rcfg.RealmConfigs) > 0 {
+		e.firstCfg = rcfg.RealmConfigs[0]
 	}
 	if e.C.Template != nil {
 		rcfg.RealmTemplate = e.buildRealm(e.C.Template)
@@ -700,6 +704,12 @@ func (e *Engine) execOp(idx int, op *Op, st *StepRec) {
 		for i := range e.C.Realms {
 			if e.C.Realms[i].URI == op.URI {
 				rc := e.buildRealm(&e.C.Realms[i])
+				if reuse, _ := e.C.P["reuse_config"].Go().(bool); reuse && e.firstCfg != nil {
+					// an application that keeps one RealmConfig value around: it overwrites the
+					// object it once configured the first realm with and hands it in again
+					*e.firstCfg = *rc
+					rc = e.firstCfg
+				}
 				go func() { _ = e.R.AddRealm(rc) }()
 			}
 		}
